@@ -196,6 +196,12 @@ func (e *wexpr) wgsl0() string {
 		return e.ty.String() + "(" + e.args[0].wgsl() + ")"
 	case "bitcast":
 		return "bitcast<" + e.ty.String() + ">(" + e.args[0].wgsl() + ")"
+	case "aidx": // array<T, N>(args...)[name] (C06)
+		as := make([]string, len(e.args))
+		for i, a := range e.args {
+			as[i] = a.wgsl()
+		}
+		return fmt.Sprintf("array<%s, %d>(%s)[%s]", e.ty.String(), len(e.args), joinArgs(as), e.name)
 	case "cons":
 		as := make([]string, len(e.args))
 		for i, a := range e.args {
